@@ -287,6 +287,8 @@ def explore_shard(acc, shard):
         case = {"kind": "timeline", "timeline": TC.fmt_tl(tl), "beats": [str(b) for b in beats], "extra_sets": [["3"]], "label": label}
         core.guard(acc, case)
         fails = check_timeline(tl, beats, [[Fraction(3)]])
+        with core.decimal_precision(6):
+            fails += [dict(f, clause=f["clause"] + " (decimal context precision 6)") for f in check_timeline(tl, beats, [])]
         acc.count("states")
         acc.count("transitions")
         acc.count("evaluations", NQ[0])
@@ -349,7 +351,7 @@ def explore(run):
         + f"; x offsets {[str(o) for o in OFFSETS]}; each state: beat_at under all 7 tags + default at every engine time_at(beat, tag) value of ~40 probe beats, 3-5 times inside every pause, mid-points between event times, before and after; "
         "independence transitions: 1..3 redundant BPM changes on the ticks before the first event (shifted grid), at free grid points and after the last event (other grids). "
         "Non-trivial = at least two events."
-        + " X: the special timelines of C11 (crowded warps, long warps, far-out events and queries, extreme and many-digit BPMs, hour offsets)."
+        + " X: the special timelines of C11 (crowded warps, long warps, far-out events and queries, extreme and many-digit BPMs, hour offsets), each also under a decimal context of 6 digits."
     )
     run.assumptions = [
         "mc/models/timeline.py: B_default(t) = sup{b: arrive(b) <= t}, B_warp(t) = inf{b: depart(b) >= t}",
